@@ -208,6 +208,9 @@ class Ctx(object):
             for e in self.fx.of_kind("FS_READFILE"):
                 if "SETTINGS" in e.classes:
                     ok_roles.setdefault(e.site.body.path, set()).add(("ROLE", "SETTINGS_CHECKED"))
+            for e in self.fx.of_kind("FS_RENAME"):
+                if e.classes2 and e.classes2 <= {"CAS_BLOB"}:
+                    ok_roles.setdefault(e.site.body.path, set()).add(("ROLE", "PUBLISHED"))
             self._ok_roles = ok_roles
         return self._roles
 
